@@ -13,7 +13,7 @@ iterate them).  Categories with a trailing '+' ('zeta+', 'hyper+', ...) and 'ari
 were added later so that *every* public callable of mp is either in ENTRIES or in EXCLUDED (see consistency()).
 Their shapes may use the additional kinds
   Lz list of 1..4 numbers   La list of 0..3 parameters   G pair of parameter lists (meijerg)   chi Dirichlet character
-  ek kind string of ellipfun   NAME=kind  keyword argument
+  ek kind string of ellipfun   NAME=kind  keyword argument   xbig / zbig  real / complex with (imaginary) part in 2^[15,18]
 which produce the additional specs ('S', str)  ('L', [spec, ...])  ('K', name, spec); build() handles S and L,
 split_args()/call() handle K (keyword) specs.  family(name) maps 'zeta+' -> 'zeta'.
 """
@@ -109,8 +109,9 @@ _add('utility+', 'x x x', 'arange')
 _add('utility+', 'x x n1', 'linspace')
 _add('gamma+', 'La La', 'gammaprod')
 _add('zeta+', 'z chi', 'dirichlet')
-_add('zeta+', 'z', 'secondzeta rs_zeta')
-_add('zeta+', 'x', 'rs_z')
+_add('zeta+', 'z', 'secondzeta')
+_add('zeta+', 'zbig', 'rs_zeta')                 # Riemann-Siegel: needs a large imaginary part
+_add('zeta+', 'xbig', 'rs_z')
 _add('zeta+', 'p', 'nzeros backlunds')
 _add('zeta+', 'n', 'grampoint')
 _add('zeta+', 'n1', 'zetazero')
@@ -401,6 +402,10 @@ def _gen_kind(kind, r, bits, mag, real_only):
             out.append(L([I(v) for v in r.choice([[1], [1], [0, 1], [0, 1, 0, -1], [0, 1, -1], [-1, 1]])]))
         elif kind == 'ek':
             out.append(S(r.choice(['sn', 'cn', 'dn', 'sc', 'cd', 'nd', 'ns', 'ds'])))
+        elif kind == 'xbig':
+            out.append(R(raw_rand(r, bits, 15, 18, sign=0)))
+        elif kind == 'zbig':
+            out.append(C(raw_rand(r, bits, -2, 1, sign=0), raw_rand(r, bits, 15, 18, sign=0)))
         elif kind in ('z', 'x', 'p', 'u', 'u01'):
             k2 = 'x' if (real_only and kind == 'z') else kind
             out.append(gen_number(r, bits, k2, mag))
